@@ -149,25 +149,38 @@ def arSrc (w : Nat) (ss : Bool) (x : Int) : Int :=
   if w < 32 then wrapSw 32 x else if ss then wrapSw w x else wrapUw w x
 def toSrc (w : Nat) (ss : Bool) (x : Int) : Int := if ss then wrapSw w x else wrapUw w x
 
+/-- value of an arithmetic expression on `make_unsigned<Source>` operands -/
+def arUSrc (w : Nat) (x : Int) : Int := if w < 32 then wrapSw 32 x else wrapUw w x
+
 def initInt (w : Nat) (ss : Bool) (p y : Int) : Int :=
   if w > k.s then
     if ss then
       -- IS_SINT(Source) && sizeof(Source) > sizeof(Storage_t):
-      --   x = Caster<Element>((y<0 ? -y : y) % Source(_p)); return (y < 0 ? negin(x) : x);
-      let ay := if y < 0 then arSrc w ss (-y) else y
-      let x := k.toE (Int.tmod ay (toSrc w ss p))
+      --   USource uy = (y < 0) ? USource(USource(0) - USource(y)) : USource(y);
+      --   x = Caster<Element>(uy % USource(_p)); return (y < 0 ? negin(x) : x);
+      let uy := if y < 0 then wrapUw w (arUSrc w (0 - wrapUw w y)) else wrapUw w y
+      let x := k.toE (Int.tmod uy (wrapUw w p))
       if y < 0 then k.negin p x else x
     else
       -- IS_UINT(Source) wider: x = Caster<Element>(y % Source(_p))
       k.toE (Int.tmod y (toSrc w ss p))
   else if k.sg then
-    -- IS_SINT(Storage_t), small source: reduce(Caster<Element>(x,y))
-    k.reduce p (k.toE y)
+    if ss then
+      -- _init_small_s, signed source: reduce(Caster<Element>(x,y))
+      k.reduce p (k.toE y)
+    else
+      -- _init_small_s, unsigned source: Caster<Element>(Common_t(y) % Common_t(residu())), Common_t = unsigned storage type (int below 32 bits)
+      k.toE (Int.tmod (k.arU y) (k.arU p))
   else
-    -- IS_UINT(Storage_t), small source: reduce(x, Caster<Element>((y < 0)? -y : y)); if (y < 0) negin(x);
-    let ay := if y < 0 then arSrc w ss (-y) else y
-    let x := k.reduce p (k.toE ay)
+    -- _init_small_u, integral source:
+    --   uy = (y < 0) ? Element(Element(0) - Caster<Element>(y)) : Caster<Element>(y); reduce(x, uy); if (y < 0) negin(x);
+    let uy := if y < 0 then k.toE (k.arE (0 - k.toE y)) else k.toE y
+    let x := k.reduce p uy
     if y < 0 then k.negin p x else x
+
+/-- the constants of the constructor (modular-implem.h:63): zero, one, mOne -/
+def zero : Int := k.toE 0
+def one : Int := k.toE 1
 
 end ICfg
 
